@@ -53,7 +53,9 @@ def gen(rng, max_n=7, with_debug=True, with_setup=True, with_tags=True):
         if s["setup"]:
             s["preds"] = [p for p in s["preds"] if specs[p]["setup"]]
     if with_tags:
-        pool = ["tA", "tB", "n0", "n1"]   # a tag may equal another node's id
+        # a tag may equal another node's id; a tag may CONTAIN another tag or a node id as a substring ("tA" in "tAB",
+        # "n1" in "n10"): an alias denotes the nodes carrying exactly that tag, never a tag it is part of
+        pool = ["tA", "tB", "n0", "n1", "tAB", "n10"]
         for s in specs:
             r = rng.random()
             if r < 0.2:
